@@ -370,6 +370,7 @@ def gen(rng, tier, dist):
     for _ in range(n):
         nw = rng.choice([1, 1, 2, 2, 3, 4, 6, 10])
         text, slots, kind = "", [], "sc"
+        prev_t = ""
         lead = rng.random()
         for j in range(nw):
             if rng.random() < 0.15 or (lead < 0.12 and j == min(nw - 1, int(lead * 33))):
@@ -379,11 +380,17 @@ def gen(rng, tier, dist):
                 # (after an array the scanner takes the array's last element: finding
                 # range-after-array, generated on purpose now and then)
                 tt0 = re.sub(r"(^|\s)%[^\n]*", " ", text).rstrip(" \n\t")
+                # (a range after an array that ends in an open range: the closing bracket is no
+                # neighbour for the checker since fix D31; generated, with the array's last slot of
+                # another type so that the scanner finds no neighbour either)
                 if " ... " in t and not t.startswith("[") and tt0.endswith("]") and tt0[:-1].rstrip(" \n\t").endswith("..."):
-                    # a range after an array that ends in an open range: the checker's search for a
-                    # previous ellipsis ends inside the array (class range-after-array)
-                    text += "nil" + sep(rng)
-                    slots.append("N")
+                    if re.sub(r"(^|\s)%[^\n]*", " ", prev_t).count("...") >= 2:
+                        # the array holds another range in front of its open one: the checker's search
+                        # finds that one first (class range-after-array) - kept apart
+                        text += "nil" + sep(rng)
+                        slots.append("N")
+                    else:
+                        bump("range-after-open-array")
                 if " ... " in t and slots and slots[-1][0] == sl[-1][0]:
                     tt = text.rstrip(" \n\t")
                     after_array = tt.endswith("]") and not tt[:-1].rstrip(" \n\t").endswith("...")
@@ -396,6 +403,7 @@ def gen(rng, tier, dist):
                     t, sl = word(rng)
             text += t
             slots += sl
+            prev_t = t
             if j + 1 < nw or rng.random() < 0.3:
                 text += sep(rng)
         bump("words=%d" % nw)
